@@ -59,18 +59,22 @@ PLAN = {
  'C15': [('api_load','tie_load','polyseed_load as translated: the allocation and free events of every exit'),
          ('api_free','tie_free','polyseed_free as translated: wipe, then free, of the block'),
          ('api_free_null','tie_free_null','polyseed_free(NULL) as translated: no event'),
-         ('api_decode','tie_decode','polyseed_decode as translated: the allocation and free events of every exit')],
+         ('api_decode','tie_decode','polyseed_decode as translated: the allocation and free events of every exit'),
+         ('machine_ledger','code_ledger','ON THE CODE: the ledger theorem read off the events of one call of the translated code (CodeMachine.cstep), for every well-formed call on a fresh state')],
  'C16': [('api_free','tie_free','polyseed_free as translated: MEMZERO_PTR of the whole struct immediately before FREE'),
          ('api_decode','tie_decode','polyseed_decode as translated: str_tmp, words and poly are wiped on every exit'),
          ('api_crypt','tie_crypt','polyseed_crypt as translated: poly, mask and pass_norm are wiped'),
          ('idx','tie_phrase_decode_ev','polyseed_phrase_decode translated with its events: exactly one wipe of idx on every return, the MULT_LANG one included; otherwise it is the pure translation tied in C09'),
          ('api_encode','tie_encode','polyseed_encode as translated: poly and str_tmp are wiped'),
+         ('machine_frees_wiped','code_frees_wiped','ON THE CODE: every free among the events of a call of the translated code is preceded by the wipe of the whole block'),
+         ('machine_frame_clean','code_frame_clean','ON THE CODE: every automatic object tainted on the exit taken is wiped among the events of the call of the translated code'),
          ('locals','tie_locals','the automatic arrays and structs of every translated API function, as found in the current source, are the objects the wipe accounting knows plus the two public salts: a new temporary breaks this'),
          ('locals_accounted','locals_accounted','each of them maps to an object of the mirror (CTieApi.cobj) or is a salt')],
  'C19': [('split','tie_str_split','str_split as translated reads plain chars through the signedness parameter; for either setting it computes the mirror split, which does not mention signedness')],
  'C05': [('signatures','tie_ctypes','the C types of the parameters of the translated functions (the coin is `enum polyseed_coin`, an int: every coin below 2048 reaches the xor unchanged), as clang reports them for the current headers')],
  'C18': [('api_create','tie_create','polyseed_create as translated: one allocation, one clock read, one request for 19 random bytes - all through the table - and the secret is those bytes'),
          ('api_keygen','tie_keygen','polyseed_keygen as translated: the key is what the injected KDF wrote'),
+         ('machine_uses_table','code_uses_table','ON THE CODE: every event of a call of the translated code goes through the table in place'),
          ('inject','tie_inject','polyseed_inject as translated (release build): the table in place afterwards is a copy of the one handed in, NULL time / alloc / free replaced each by its own libc default, every entry replaced, nothing kept from the previous table')],
  'C08': [('get_comparer','tie_get_comparer','get_comparer as translated: the comparer selected for a language from its two flags, run as translated, is the mirror comparer of the one token rule'),
          ('lang_search','tie_lang_search','lang_search as translated: binary search or linear scan by the is_sorted flag, first match of the scan, index or -1 - the mirror search, for every NUL-free token (libc bsearch by contract)'),
